@@ -40,6 +40,9 @@ import (
 	"math/rand/v2"
 	"net"
 	"net/netip"
+	"encoding/json"
+	"os"
+	"path/filepath"
 	"runtime"
 	"sort"
 	"strings"
@@ -359,6 +362,8 @@ type c05Case struct {
 	// period (10 s) before the first half-close, so a grace deadline that is not
 	// anchored at the moment of the half-close shows up.
 	OldConn bool `json:"old_connection_before_half_close"`
+	// DialDelayMs: time the (simulated) upstream dial takes between composition and relay start.
+	DialDelayMs int `json:"dial_delay_ms"`
 }
 
 func c05Pick[T any](r *rand.Rand, xs ...T) T { return xs[r.IntN(len(xs))] }
@@ -416,6 +421,7 @@ func c05GenCase(r *rand.Rand, id int, budget *int64) *c05Case {
 	} else {
 		cs.Close = c05Pick(r, "never", "never", "client-first", "client-first", "server-first", "server-first", "simul")
 	}
+	cs.DialDelayMs = c05Pick(rand.New(rand.NewPCG(cs.CaseSeed, 0xD1A1)), 0, 0, 3, 15, 40)
 	cs.SmallWin = (cs.C2S >= 65535 || cs.S2C >= 65535) && r.IntN(2) == 0
 	cs.Eager = cs.Close != "never" && r.IntN(5) < 2
 	cs.LongGrace = (cs.Close == "client-first" || cs.Close == "server-first") && r.IntN(3) == 0
@@ -838,6 +844,14 @@ func (x *c05Run) daeSide(lConn *net.TCPConn, upstream *net.TCPAddr, dst netip.Ad
 		x.relayDoneAt.Store(x.now())
 		return
 	}
+	if d := x.cs.DialDelayMs; d > 0 {
+		// the dial of a real outbound takes time; whatever the composition holds on to meanwhile
+		// (probe bytes, prefetched prefix) must survive other connections being accepted: one more
+		// client-first connection is accepted and probed on this very goroutine (so that per-P pooled
+		// buffers are handed out again at once), then the dial "completes"
+		c05NeighbourAccepted(x.cp.sniffingTimeout)
+		time.Sleep(time.Duration(d) * time.Millisecond)
+	}
 	rRaw, err := net.DialTCP("tcp", nil, upstream)
 	if err != nil {
 		x.composeErr = "harness dial: " + err.Error()
@@ -991,10 +1005,7 @@ func (x *c05Run) shortAtEOF() (dir string, got, want int64) {
 			// grace period for the opposite direction (10 s) may have run out while the sender was
 			// still writing (a slow sender on a loaded machine); like judgeCut, not judged.
 			if own := d.p.cwAt.Load(); own != 0 && e-own >= int64(5*time.Second) {
-				if g, w := d.p.recvd.Load(), d.q.sent.Load(); g < w {
-					x.m.Count("grace_short_after_5s_unjudged", 1)
-				}
-				continue
+				continue // see graceExpired
 			}
 			if g, w := d.p.recvd.Load(), d.q.sent.Load(); g < w {
 				return d.dir, g, w
@@ -1002,6 +1013,23 @@ func (x *c05Run) shortAtEOF() (dir string, got, want int64) {
 		}
 	}
 	return "", 0, 0
+}
+
+// graceExpired: a reader saw EOF short of what its peer wrote, and the reader itself had shut down
+// its write side >= 5 s earlier. The relay's bounded grace period for the direction that was still
+// flowing ran out while the sender kept writing; the statement allows the cut. Terminal, unjudged.
+func (x *c05Run) graceExpired() bool {
+	if x.srv == nil {
+		return false
+	}
+	for _, d := range [][2]*c05Peer{{x.srv, x.cli}, {x.cli, x.srv}} {
+		p, q := d[0], d[1]
+		e, cw, own := p.eofAt.Load(), q.cwAt.Load(), p.cwAt.Load()
+		if e != 0 && cw != 0 && e >= cw && own != 0 && e-own >= int64(5*time.Second) && p.recvd.Load() < q.sent.Load() {
+			return true
+		}
+	}
+	return false
 }
 
 func (x *c05Run) judgeShort() bool {
@@ -1246,6 +1274,9 @@ func (x *c05Run) run() {
 		if d, _, _ := x.shortAtEOF(); d != "" {
 			return true
 		}
+		if x.graceExpired() {
+			return true
+		}
 		if x.srv.recvd.Load() >= cBulkEnd && x.cli.recvd.Load() >= sBulkEnd {
 			return true
 		}
@@ -1276,10 +1307,21 @@ func (x *c05Run) run() {
 		x.judgeStreams()
 		return
 	}
+	if x.graceExpired() {
+		m.Count("grace_short_after_5s_unjudged", 1)
+		x.teardown(srvConn)
+		x.judgeStreams()
+		return
+	}
 	if !delivered {
 		if !x.judgeStreamsLive() {
-			m.Inconclusive("case %d (%s/%s): bulk phase stalled (no progress for 10 s) and nothing was terminated (c2s %d/%d, s2c %d/%d)",
-				cs.ID, x.comp.outcome, cs.Pre, x.srv.recvd.Load(), cBulkEnd, x.cli.recvd.Load(), sBulkEnd)
+			dump := filepath.Join(vk.BuildDir(), "replay", "C05", fmt.Sprintf("stall-case%d.json", cs.ID))
+			_ = os.MkdirAll(filepath.Dir(dump), 0o755)
+			if b, err := json.MarshalIndent(x.witness(map[string]any{"goroutines": c05Stacks()}), "", " "); err == nil {
+				_ = os.WriteFile(dump, b, 0o644)
+			}
+			m.Inconclusive("case %d (%s/%s): bulk phase stalled (no progress for 10 s) and nothing was terminated (c2s %d/%d, s2c %d/%d); state in %s",
+				cs.ID, x.comp.outcome, cs.Pre, x.srv.recvd.Load(), cBulkEnd, x.cli.recvd.Load(), sBulkEnd, dump)
 		}
 		x.teardown(srvConn)
 		return
@@ -1600,6 +1642,44 @@ func c05AbortedRelay(m *vk.Monitor, r *rand.Rand, id int) {
 	}
 	m.Count("torn_down_relay_path_"+paths.String(), 1)
 	m.Count(fmt.Sprintf("torn_down_relay_how_%d", how), 1)
+}
+
+// c05NeighbourAccepted: another client-first connection (first bytes that match no judged stream)
+// goes through dae's prefetch step and is dropped.
+func c05NeighbourAccepted(wait time.Duration) {
+	ln, err := c05ListenLoopback()
+	if err != nil {
+		return
+	}
+	defer func() { _ = ln.Close() }()
+	c, err := net.DialTCP("tcp", nil, ln.Addr().(*net.TCPAddr))
+	if err != nil {
+		return
+	}
+	defer func() { _ = c.Close() }()
+	a, err := ln.AcceptTCP()
+	if err != nil {
+		return
+	}
+	defer func() { _ = a.Close() }()
+	_, _ = c.Write(bytes.Repeat([]byte{0xA5, 0x5A, 0xEE}, 40))
+	_, _, _, _ = prefetchForTcpSniff(a, wait, tcpSniffPrefetchBytes)
+}
+
+func c05Stacks() string {
+	buf := make([]byte, 4<<20)
+	buf = buf[:runtime.Stack(buf, true)]
+	// only goroutines inside dae's relay / wrappers are of interest
+	var keep []string
+	for _, g := range strings.Split(string(buf), "\n\n") {
+		if strings.Contains(g, "control.relay") || strings.Contains(g, "control.(*relay") || strings.Contains(g, "bufioConn") || strings.Contains(g, "RelayTCP") {
+			keep = append(keep, g)
+		}
+	}
+	if len(keep) > 40 {
+		keep = keep[:40]
+	}
+	return strings.Join(keep, "\n\n")
 }
 
 func TestVerifC05(t *testing.T) {
